@@ -82,6 +82,8 @@ def _ds_opts(draw):
       o.pop("statistics_compute_steps", None)
     else:
       o["statistics_compute_steps"] = s
+    if draw(st.floats(0, 1)) < 0.9:
+      o["reuse_preconditioner"] = True   # the constructor demands it for frequent directions
     maybe("average_grad", st.just(True), 0.5)
     maybe("reset_preconditioner", st.just(True), 0.3)
     maybe("generate_fd_metrics", st.just(True), 0.3)
